@@ -13,7 +13,7 @@ from typing import Optional, Union, Any, Dict, Set, List, ClassVar
 # Local Imports
 from . import attrmagic
 from .role import Role, RoleSet
-from .connect import connectable, is_connectable
+from .connect import connectable, OrderedSet, is_connectable
 from .sliceable import sliceable
 from .concat import concatable
 from .signal import Signal
@@ -108,7 +108,7 @@ class BundleInstance:
         self.refs_to_me: Dict[str, "BundleRef"] = dict()
         self.props: Properties = Properties()
         # Connected port references
-        self._connected_ports: Set["PortRef"] = set()
+        self._connected_ports: Set["PortRef"] = OrderedSet()
         self._parent_module: Optional["Module"] = None
         self._elaborated = False
         self._initialized = True
@@ -405,7 +405,7 @@ class AnonymousBundle:
         # The core namespace of Signals, other Bundles, and any other Connectables
         self._namespace: Dict[str, "Signal"] = dict()
         # Connected port references
-        self._connected_ports: Set["PortRef"] = set()
+        self._connected_ports: Set["PortRef"] = OrderedSet()
 
         # And add each keyword-arg
         for key, val in kwargs.items():
@@ -468,7 +468,7 @@ class BundleRef:
         self._width: Optional[int] = None  # FIXME: remove?
         self._slices: Set["Slice"] = set()
         self._concats: Set["Concat"] = set()
-        self._connected_ports: Set["PortRef"] = set()
+        self._connected_ports: Set["PortRef"] = OrderedSet()
 
         self._elaborated = False
         self._initialized = True
